@@ -185,10 +185,15 @@ def unit_grad_scales(ctx):
         for sc in (1e-3, 1e3):
             rng = np.random.RandomState(ctx.seed)
             x = gen_input((2, 16), False, sc, rng, "x")
-            y = seeded(lambda t: S[name][0]()(t), 7)(x)
-            loss = (y.abs() ** 2).sum()
-            (g,) = torch.autograd.grad(loss, x)
             cell = {"stage": name, "dtype": "real", "mode": "extreme_scale"}
+
+            def fwd_bwd():
+                y = seeded(lambda t: S[name][0]()(t), 7)(x)
+                loss = (y.abs() ** 2).sum()
+                return torch.autograd.grad(loss, x)[0]
+            ok, g = ctx.call(fwd_bwd, "C19.d_backward_raises", cell, {"stage": name, "scale": sc}, "forward/backward through the stage raised", "c19:replay_scales")
+            if not ok:
+                continue
             ctx.check(bool(torch.isfinite(g).all()), "C19.d_finite", cell, {"stage": name, "scale": sc}, None, None, "gradient is NaN/inf at extreme input scale", "c19:replay_scales")
             ctx.nontrivial("scale", name, sc)
     ctx.sample({"scales": [1e-3, 1e3]})
